@@ -89,7 +89,7 @@ class C10(PropBase):
         out = []
         self.gid = 0
         for _ in range(nu):
-            items = ls.universe(rng, v, kind=rng.choice(['full', 'full', 'leaf', 'mixed']), size=rng.randint(5, 16))
+            items = [e for e in ls.universe(rng, v, kind=rng.choice(['full', 'full', 'leaf', 'mixed']), size=rng.randint(5, 16)) if ':' not in e and '?' not in e]      # entries are Sid strings, not uris
             typed_items = [s for s in items if s]
             opts = ['pre_sort'] if rng.random() < 0.4 else []      # FindInList(items, do_pre_sort=True)
             tg = [g for g in self.targeted(rng, v, [s for s in typed_items if natural(v, s)]) if g[0] == 'literal']
